@@ -134,6 +134,24 @@ func forwardInfo(fn *ssa.Function) *Forward {
 			}
 		}
 	}
+	if !thru {
+		// the parameters in order with constants in between (`list.Insert(0, v)` for a Push(v)): still nothing of its own
+		pi := 1
+		okc := true
+		for _, a := range actual {
+			if _, isConst := a.(*ssa.Const); isConst {
+				continue
+			}
+			if pi < len(fn.Params) && a == ssa.Value(fn.Params[pi]) {
+				pi++
+				continue
+			}
+			okc = false
+		}
+		if okc && pi == len(fn.Params) {
+			thru = true
+		}
+	}
 	if !returnsCallUnchanged(fn, call) {
 		return nil
 	}
